@@ -83,7 +83,7 @@ POPCOUNT_DEFINE_PORTABLE(I64_POPCNT, u64)
 #define ROTR(x, y, mask) \
   (((x) >> ((y) & (mask))) | ((x) << (((mask) - (y) + 1) & (mask))))
 
-#define I32_ROTL(x, y) ROTL(x, y, 31)
-#define I64_ROTL(x, y) ROTL(x, y, 63)
-#define I32_ROTR(x, y) ROTR(x, y, 31)
-#define I64_ROTR(x, y) ROTR(x, y, 63)
+#define I32_ROTL(x, y) ((int32_t)ROTL((uint32_t)(x), y, 31))
+#define I64_ROTL(x, y) ((int64_t)ROTL((uint64_t)(x), y, 63))
+#define I32_ROTR(x, y) ((int32_t)ROTR((uint32_t)(x), y, 31))
+#define I64_ROTR(x, y) ((int64_t)ROTR((uint64_t)(x), y, 63))
